@@ -2,7 +2,9 @@ package props
 
 import (
 	"go/constant"
+	"go/token"
 	"go/types"
+	"sort"
 	"strings"
 
 	"verif/checker/internal/an"
@@ -83,6 +85,8 @@ func c02(c *Ctx) {
 		r.Undecide("R02.L", "population", "", err.Error())
 		return
 	}
+	r.Rule("R02.R", "the encoder walks nested values recursively: no list kept in a field of the Encoder and filled by one activation is read after a call that may re-enter it (the nested object would overwrite its parent's list)", 1)
+	c.noScratchAcrossReentry("R02.R", "Encoder")
 	r.Rule("R02.G", "a present conditional group contains every one of its fields: the decoder reads a tagged field iff its bit is set, the encoder sets the bit and emits the field under that bit and nothing else (a flags.N?Bool is a bit plus a Bool word, only flags.N?true is the bit alone)", 3)
 	c01Presence(c, pp, tr, "R02.G")
 	api, mt, err := c.Schemas()
@@ -536,4 +540,199 @@ func c02FlagsPosition(c *Ctx, tr *an.Tracer, rule string) {
 		}
 		r.Check(ok, rule, side.key, c.pos(f.Pos()), detail)
 	}
+}
+
+// noScratchAcrossReentry: the codec walks values recursively (a struct's field is a struct, a vector's element an
+// object).  A work list kept in a field of the Encoder / Decoder and filled by one activation is overwritten by
+// the nested activation that fills the same storage - the parent then emits (or stores) the child's values.  Per
+// method of the receiver type that can re-enter itself: no slice derived from a receiver field (load, reslice,
+// append onto it) that this function fills (append / element store) is read after a call that may re-enter the
+// function.  A scratch byte buffer used between two non-re-entrant calls is not affected.
+func (c *Ctx) noScratchAcrossReentry(rule, recv string) {
+	r := c.R
+	g := c.Graph()
+	var fns []*ssa.Function
+	for f := range c.P.AllFunctions() {
+		if load.FuncPkgPath(f) != load.TLPkg || f.Synthetic != "" || len(f.Blocks) == 0 || f.Signature.Recv() == nil {
+			continue
+		}
+		if !strings.HasSuffix(f.Signature.Recv().Type().String(), "."+recv) {
+			continue
+		}
+		fns = append(fns, f)
+	}
+	sort.Slice(fns, func(i, j int) bool { return fns[i].String() < fns[j].String() })
+	// a field nothing ever assigns stays nil: append onto it allocates, nothing is shared
+	assigned := map[int]bool{}
+	for f := range c.P.AllFunctions() {
+		if load.FuncPkgPath(f) != load.TLPkg {
+			continue
+		}
+		for _, b := range f.Blocks {
+			for _, in := range b.Instrs {
+				if st, ok := in.(*ssa.Store); ok {
+					if fa, ok := st.Addr.(*ssa.FieldAddr); ok && strings.HasSuffix(fa.X.Type().String(), "."+recv) {
+						if k, isK := st.Val.(*ssa.Const); !isK || !k.IsNil() {
+							assigned[fa.Field] = true
+						}
+					}
+				}
+			}
+		}
+	}
+	n := 0
+	for _, f := range fns {
+		f := f
+		// call sites of f that may come back to f
+		var reentry []ssa.Instruction
+		for _, b := range f.Blocks {
+			for _, in := range b.Instrs {
+				ci, ok := in.(ssa.CallInstruction)
+				if !ok {
+					continue
+				}
+				for _, callee := range g.CalleesAt(f, ci) {
+					if callee == f || g.Reaches(callee, c.inRepo, func(h *ssa.Function) bool { return h == f }) {
+						reentry = append(reentry, in)
+						break
+					}
+				}
+			}
+		}
+		if len(reentry) == 0 {
+			continue
+		}
+		n++
+		recvParam := f.Params[0]
+		// the receiver itself, or the load of the cell go/ssa spills it into when a closure captures it
+		isRecv := func(v ssa.Value) bool {
+			if v == ssa.Value(recvParam) {
+				return true
+			}
+			ld, ok := v.(*ssa.UnOp)
+			if !ok || ld.Op != token.MUL {
+				return false
+			}
+			cell, ok := ld.X.(*ssa.Alloc)
+			if !ok {
+				return false
+			}
+			n := 0
+			for _, ref := range *cell.Referrers() {
+				if st, ok := ref.(*ssa.Store); ok && st.Addr == ssa.Value(cell) {
+					n++
+					if st.Val != ssa.Value(recvParam) {
+						return false
+					}
+				}
+			}
+			return n > 0
+		}
+		memo := map[ssa.Value]bool{}
+		var derived func(v ssa.Value) bool
+		derived = func(v ssa.Value) bool {
+			if d, ok := memo[v]; ok {
+				return d
+			}
+			memo[v] = false
+			res := false
+			switch x := v.(type) {
+			case *ssa.UnOp:
+				if fa, ok := x.X.(*ssa.FieldAddr); ok && x.Op == token.MUL && isRecv(fa.X) && assigned[fa.Field] {
+					_, isSlice := x.Type().Underlying().(*types.Slice)
+					res = isSlice
+				}
+				// a local captured by a closure lives in a cell: what is loaded is what was stored
+				if cell, ok := x.X.(*ssa.Alloc); ok && x.Op == token.MUL {
+					for _, ref := range *cell.Referrers() {
+						if st, ok := ref.(*ssa.Store); ok && st.Addr == ssa.Value(cell) && derived(st.Val) {
+							res = true
+						}
+					}
+				}
+			case *ssa.Slice:
+				res = derived(x.X)
+			case *ssa.ChangeType:
+				res = derived(x.X)
+			case *ssa.Phi:
+				for _, e := range x.Edges {
+					if derived(e) {
+						res = true
+					}
+				}
+			case *ssa.Call:
+				if an.CalleeName(x.Common()) == "builtin:append" && len(x.Call.Args) > 0 {
+					res = derived(x.Call.Args[0])
+				}
+			}
+			memo[v] = res
+			return res
+		}
+		var filled, reads []ssa.Instruction
+		for _, b := range f.Blocks {
+			for _, in := range b.Instrs {
+				switch x := in.(type) {
+				case *ssa.Call:
+					if an.CalleeName(x.Common()) == "builtin:append" && len(x.Call.Args) > 0 && derived(x.Call.Args[0]) {
+						filled = append(filled, in)
+					}
+				case *ssa.Store:
+					if ia, ok := x.Addr.(*ssa.IndexAddr); ok && derived(ia.X) {
+						filled = append(filled, in)
+					}
+				case *ssa.UnOp:
+					if ia, ok := x.X.(*ssa.IndexAddr); ok && x.Op == token.MUL && derived(ia.X) {
+						reads = append(reads, in)
+					}
+				case *ssa.Range:
+					if derived(x.X) {
+						reads = append(reads, in)
+					}
+				}
+			}
+		}
+		var bad []string
+		if len(filled) > 0 {
+			for _, rd := range reads {
+				for _, ce := range reentry {
+					if instrAfter(ce, rd) {
+						bad = append(bad, sprintf("a list kept in a field of the %s and filled here (%s) is read at %s after the call at %s, which may re-enter %s and fill it again",
+							recv, c.pos(filled[0].Pos()), c.pos(rd.Pos()), c.pos(ce.Pos()), f.Name()))
+						break
+					}
+				}
+				if len(bad) > 0 {
+					break
+				}
+			}
+		}
+		r.Check(len(bad) == 0, rule, "no-scratch-across-reentry:"+an.ShortName(f), c.pos(f.Pos()), strings.Join(bad, "; "))
+	}
+	if n == 0 {
+		r.Undecide(rule, "no-scratch-across-reentry", "", "no re-entrant method of "+recv+" found")
+	}
+}
+
+// instrAfter: b may execute after a (same block later, or b's block reachable from a's block, loops included).
+func instrAfter(a, b ssa.Instruction) bool {
+	if a.Block() == b.Block() {
+		ia, ib := -1, -1
+		for i, in := range a.Block().Instrs {
+			if in == a {
+				ia = i
+			}
+			if in == b {
+				ib = i
+			}
+		}
+		if ib > ia {
+			return true
+		}
+	}
+	for _, s := range a.Block().Succs {
+		if s == b.Block() || reachesBlock(s, b.Block(), map[*ssa.BasicBlock]bool{}) {
+			return true
+		}
+	}
+	return false
 }
